@@ -16,7 +16,9 @@ pub(crate) use quantity_arg;
 
 macro_rules! scalar_arg {
     ($args:ident) => {
-        quantity_arg!($args).as_scalar().unwrap()
+        quantity_arg!($args)
+            .as_scalar()
+            .map_err(|e| Box::new(crate::interpreter::RuntimeErrorKind::QuantityError(e)))?
     };
 }
 pub(crate) use scalar_arg;
